@@ -49,6 +49,11 @@ CHECKS["C13"] = ("model_checking",
          "TLC enumerates all texts <= 3/4 over the punctuator alphabet, <= 3/4 over the literal alphabet, <= 4/5 over number/prefix alphabets, all keyword spellings with one-character perturbations (keyword table extracted from pp.c at run time, binary search modelled), splices and comments at every position, random long texts; Lex(t) is the oracle for kind, spelling and space flag of every token `cproc-qbe -E` delivers; lexical errors must exit 1 with a located diagnostic; `enum { w };` accepted iff w is not a keyword.",
          "trusted: Tok/Scan.tla (Lex audited against clang -dump-tokens), H1 hook, Python glue; `::` and u8'c' per C23; trigraphs, UCN ranges outside the model; known: digraphs, UCNs.",
          "DESIGN.md §5 C13")
+CHECKS["C03"] = ("model_checking",
+         "TLA+ IL validator (QbeWF.tla: named well-formedness obligations + def-dominates-use dataflow as a TLC state machine) judging every IL printed with status 0; emission bookkeeping model (EmitModel.tla) model-checked and replayed; process clause on injected write failures",
+         "Every IL the real compiler prints with exit 0 (corpus, own sources, WfGen.tla grammar programs, Mutate.tla mutants, EmitModel.tla behaviours rendered to C) is parsed strictly and judged in TLC: types before use, data items and sizes/alignments (hook H6-lite / generator table), labels unique, jumps target existing blocks, blocks terminated, temporaries defined once and on every path before use, instruction/call/ret/phi classes, phi sources are predecessors. EmitModel.tla's block/jump bookkeeping is checked over all bounded front-end call sequences and its behaviours replayed (block skeleton compared). Exit 0 with a failed write (full device, closed stdout, file size limit) is a violation.",
+         "trusted: ilparse.py (strict parser) and name interning; instruction signature table transcribed from the QBE IL reference and audited on the 159 stored .qbe files; callees not defined in the module unchecked.",
+         "DESIGN.md §5 C03")
 NOT_YET = {}
 
 def main():
